@@ -4,7 +4,11 @@ sys.path.insert(0, os.path.dirname(os.path.dirname(os.path.abspath(__file__))))
 import progen
 
 PID = "C12"
-PARALLEL = {"C12": 8}
+SUBS = ["C12", "C12wk"]
+PARALLEL = {"C12": 8, "C12wk": 8}
+CASE_LIMIT = {"C12wk": 60}
+EXTRA_TARGETS = ("BS.Properties.C12b", "BS.Properties.C12w")
+RETRY_FLAKY = ("C12wk",)   # the harness recognises "the worker is at rest" by a quiet period
 TIMEOUT = {"quick": 1500, "thorough": 7000}
 RULE = ("random histories of 3..8 operations in one session — run (programs of 1..5 nodes, half of them consuming one or two "
         "earlier results through pipelined and shuffling operators), scan, two concurrent scans, discard, run racing with a "
@@ -80,7 +84,7 @@ def directed_kill_discard():
             yield "%s ;; run %s ;; run N0=map R0 inc ; OUT N0 ;; kill ;; discard 1 ;; run N0=reshuffle R1 ; OUT N0" % (cfg, first)
 
 
-def gen(r, tier):
+def gen_main(r, tier):
     for c in directed_kill_discard():
         yield c
     for c in directed_prefixed():
@@ -117,7 +121,58 @@ def gen(r, tier):
         yield cfg + " ;; " + " ;; ".join(ops)
 
 
+def gen_wk(r, tier):
+    """one task on one in-process worker: sequences of 2..12 ops over up to 6 calls — Run calls that overlap (the original of a
+    retried RPC still executing), Discard calls held in the store while Run calls arrive, executions that succeed or fail —
+    compared op by op with BS.WorkerTask"""
+    directed = [
+        "run a ; fin ok ; discard b ; run c ; dfin ; run d ; fin ok",
+        "run a ; run b ; run c ; fin ok ; discard d ; discard e ; dfin ; run f ; fin ok",
+        "run a ; run b ; fin err ; run c ; fin ok ; discard d ; run e ; run f ; dfin ; run g ; fin err ; run h ; fin ok",
+        "discard a ; run b ; discard c ; fin ok ; discard d ; dfin ; discard e ; run f ; fin ok ; run g",
+        "run a ; fin ok ; run b ; discard c ; dfin ; dfin ; run d ; run e ; fin ok",
+    ]
+    for c in directed:
+        yield c
+    n = 250 if tier == "quick" else 6000
+    for _ in range(n):
+        ops, k = [], 0
+        execing, discarding, st_ok = False, False, False
+        for _ in range(r.rng(2, 12)):
+            x = r.below(100)
+            name = "abcdefghijklmnop"[k % 16]
+            if execing and x < 40:
+                o = r.choice(["ok", "ok", "err"])
+                ops.append("fin " + o); execing = False; st_ok = o == "ok"
+            elif discarding and x < 40:
+                ops.append("dfin"); discarding = False; st_ok = False
+            elif x < 70:
+                ops.append("run " + name); k += 1
+                if not execing and not discarding and not st_ok:
+                    execing = True
+            elif x < 92:
+                ops.append("discard " + name); k += 1
+                if st_ok and not execing and not discarding:
+                    discarding, st_ok = True, False
+            elif x < 96:
+                ops.append("dfin")
+                if discarding:
+                    discarding = False
+            else:
+                ops.append("fin " + r.choice(["ok", "err"]))
+                if execing:
+                    execing = False
+        if k <= 16:
+            yield " ; ".join(ops)
+
+
+def gen(r, tier, sub):
+    return gen_wk(r, tier) if sub == "C12wk" else gen_main(r, tier)
+
+
 def nontrivial(case, obs):
+    if " ;; " not in case:
+        return "discard" in case and case.count("run") >= 2
     ops = case.split(" ;; ")[1:]
     seen_discard = False
     for o in ops:
@@ -129,6 +184,11 @@ def nontrivial(case, obs):
 
 
 def shrink_candidates(case):
+    if " ;; " not in case:
+        ops = case.split(" ; ")
+        if len(ops) > 1:
+            yield " ; ".join(ops[:-1])
+        return
     parts = case.split(" ;; ")
     # drop the last op
     if len(parts) > 2:
